@@ -814,6 +814,19 @@ def build_exidx_elf(case):
         rel[i] = pos
         pos += len(chunks[i])
     extab = lead + b''.join(chunks[i] for i in chunk_ids)
+    # The handler tables need not all live in the section named .ARM.extab: with -ffunction-sections every text section has its own
+    # (.ARM.extab.text.startup, ...), and an index entry only designates a place.  tab_split = k: the chunks from position k on go into a
+    # second table section of another name.
+    second = None
+    tsp = case.get('tab_split')
+    if tsp is not None and len(chunk_ids) >= 2:
+        k = 1 + tsp % (len(chunk_ids) - 1)
+        first_ids, second_ids = chunk_ids[:k], chunk_ids[k:]
+        extab = lead + b''.join(chunks[i] for i in first_ids)
+        second = b''
+        for i in second_ids:
+            rel[i] = ('second', len(second))
+            second += chunks[i]
 
     filler = bytes((i * 5 + 1) & 0xff for i in range(case.get('pad', 64)))
     secs = [{'name': '', 'sh_type': 0},
@@ -825,11 +838,17 @@ def build_exidx_elf(case):
                      'sh_link': 1, 'data': b'\0' * (8 * len(idxs)), 'sh_addralign': 4, 'file_align': 4})
     tabi = len(secs)
     secs.append({'name': '.ARM.extab', 'sh_type': 1, 'sh_flags': 2, 'data': extab, 'sh_addralign': 4, 'file_align': 4})
+    tab2i = None
+    if second is not None:
+        tab2i = len(secs)
+        secs.append({'name': case.get('tab2_name', '.ARM.extab.text.startup'), 'sh_type': 1, 'sh_flags': 2, 'data': second, 'sh_addralign': 4, 'file_align': 4})
     stri = len(secs)
     secs.append({'name': '.shstrtab', 'sh_type': 3, 'data': b''})
     body = xidx + [tabi]
     if case.get('tab_first'):
         body = [tabi] + xidx
+    if tab2i is not None:
+        body = ([tab2i] + body) if case.get('tab2_first') else (body + [tab2i])
     order = ['ph', 1] + body + [stri, 'sh']
     if case.get('order') == 1:
         order = ['ph'] + body + [1, stri, 'sh']
@@ -872,7 +891,7 @@ def build_exidx_elf(case):
                 assert 3 <= e['bits'] <= 0x7f      # index 1/2 with bits 30-28 clear is read as a model by binutils: not generated
                 w1 = 0x80000000 | e['bits'] << 24 | (e.get('low', 0) & 0xffffff)
             else:
-                t = tab_off + rel[i]
+                t = (R['sh'][tab2i]['sh_offset'] + rel[i][1]) if isinstance(rel[i], tuple) else tab_off + rel[i]
                 x['tab'] = t
                 w1 = (t - (place + 4)) & 0x7fffffff
                 assert w1 != 1
@@ -1003,6 +1022,8 @@ def run_exidx(ctx, case):
     ctx.count('exidx.et.%d' % case.get('et', 3))
     ctx.count('exidx.n.%s' % ('0' if not ents else '1-9' if len(ents) < 10 else '10+'))
     ctx.count('exidx.tab_first' if case.get('tab_first') else 'exidx.tab_after')
+    if case.get('tab_split') is not None and sum(1 for e in ents if e['kind'] in TABLE_KINDS) >= 2:
+        ctx.count('exidx.tables-in-two-sections')
     ctx.case((data, case.get('acc', 'seq')), diff or multi,
              {'k': 'exidx', 'le': case['le'], 'entries': len(ents), 'kinds': sorted(set(e['kind'] for e in ents)),
               'disp_bit26_ne_bit30': diff, 'multibyte_opcode': multi})
@@ -1193,6 +1214,8 @@ def gen_exidx_case(ch, tier):
             'acc': ch.choice(['seq', 'rev', 'twice', 'evenodd', 'zigzag']), 'entries': ents}
     if n >= 2 and ch.int(0, 4) == 0:
         case['split'] = ch.int(0, n)
+    if ch.bool(0.3):
+        case.update(tab_split=ch.int(0, 60), tab2_name=ch.choice(['.ARM.extab.text.startup', '.rodata', '.gcc_except_table', '.ARM.extab.text.unlikely']), tab2_first=ch.bool())
     return case
 
 
@@ -1326,6 +1349,8 @@ def sweep(tier):
                 es.append({'kind': k, 'disp': -4, 'nw': nw, 'code': bytes((0x01 + i) & 0x3f for i in range(2 + 4 * nw)),
                            'trail': [0, 0x12345678]})
         cases.append(_exidx_case(es, le, split=7))
+        for k2, nm in enumerate(('.ARM.extab.text.startup', '.rodata')):
+            cases.append(_exidx_case(es, le, tab_split=3 + 5 * k2, tab2_name=nm, tab2_first=bool(k2), split=5 if k2 else None))
         # counts beyond the usual range: the count field is a full byte
         cases.append(_exidx_case([{'kind': 't1', 'disp': 8, 'nw': nw, 'code': bytes((0x3f - i) & 0x3f for i in range(2 + 4 * nw))}
                                   for nw in (7, 16, 17, 128, 255)], le, tab_first=not le))
